@@ -429,7 +429,7 @@ fn drain_raw(sock: &mut UnixStream, rep: &mut ServerReport) {
     }
 }
 
-fn drain_tls(tls: &mut SslStream<UnixStream>, into: &mut Vec<u8>, rep_timeout: &mut bool) {
+fn drain_tls<T: Read + Write>(tls: &mut SslStream<T>, into: &mut Vec<u8>, rep_timeout: &mut bool) {
     let mut buf = [0u8; 4096];
     loop {
         match tls.read(&mut buf) {
@@ -450,7 +450,23 @@ pub fn account_of(n: &NlaCfg) -> Account {
 }
 
 /// returns true when the RDP phase should follow
-fn credssp(tls: &mut SslStream<UnixStream>, id: &Identity, n: &NlaCfg, rep: &mut ServerReport) -> bool {
+/// the honest CredSSP / NTLM server rounds for `cfg`'s account over an established TLS stream (used by the GUI lane)
+pub fn credssp_honest<T: Read + Write>(tls: &mut SslStream<T>, identity: usize, cfg: &ClientCfg) -> Result<(), String> {
+    let mut rep = ServerReport { cr: None, pre_tls: Vec::new(), tls_established: true, tls_error: None, nla: NlaReport::default(), server: None, app_bytes: 0, timeout: false, early_bytes_before_reply: false };
+    let challenge = crate::props::c15::gen_challenge(&mut engine::Src::new(&[7, 200, 3, 9, 120, 33, 1, 2, 3, 4, 5, 6, 7, 8, 9, 10, 11, 12, 13, 14, 15, 16, 17, 18, 19, 20]), true);
+    let nt_hash = match &cfg.hash {
+        Some(h) => h.clone(),
+        None => crypto::nt_hash(&cfg.password),
+    };
+    let n = NlaCfg { account_domain: cfg.domain.clone(), account_user: cfg.user.clone(), account_nt_hash: nt_hash, challenge, final_reply: FinalReply::Honest, challenge_override: None, ts_version: 2 };
+    if credssp(tls, &pki().ids[identity], &n, &mut rep) {
+        Ok(())
+    } else {
+        Err(format!("CredSSP failed: negotiate {:?} verify {:?} credentials {:?}", rep.nla.negotiate_error, rep.nla.verify_error, rep.nla.credentials))
+    }
+}
+
+fn credssp<T: Read + Write>(tls: &mut SslStream<T>, id: &Identity, n: &NlaCfg, rep: &mut ServerReport) -> bool {
     let nla = &mut rep.nla;
     // round 1: NEGOTIATE
     let t1 = match read_der(tls) {
